@@ -8,7 +8,13 @@ Observed on the real asn1c built from the working tree (exploration, not proof):
  (b) fixpoint t2 == t1 and acceptance of t1, same generated per-type code for t0 and t1;
  (c) determinism of the generated tree over repeated runs (ASLR on, padded environment);
  (d) per-type files independent of the order of the file list (all permutations);
- (e) print/parse fixpoint over the shipped corpus."""
+ (e) print/parse fixpoint over the shipped corpus;
+ (f) rich modules (FROM tables, parameterised types, information objects, tag maps, option sets): identical output
+     trees in five differently shaped processes (environment size, locale, no ASLR, valgrind), valgrind memcheck
+     silent, permitted-alphabet tables a function of the alphabet alone;
+ (g) module sets with cross-module name clashes, every file order: per-type files identical, and their names equal
+     to the clash-marking model's (coq/Fix/NameClash.v: proved invariant under permutation of the module list);
+ (h) code generation from the shipped corpus through the same process-image / valgrind / table oracles."""
 import sys, os, itertools, hashlib
 from concurrent.futures import ThreadPoolExecutor
 sys.path.insert(0, os.path.join(os.path.dirname(os.path.abspath(__file__)), "..", "lib"))
@@ -64,6 +70,8 @@ def padded_env(n):
     e = dict(os.environ)
     e["A1V_PAD"] = "x" * n
     e["A1V_PAD2"] = "y" * (n // 3 + 1)
+    if n >= 7000:      # the big variant also changes locale and time zone (decimal point, time stamps)
+        e.update(LC_ALL="de_DE.UTF-8", LANG="de_DE.UTF-8", LC_NUMERIC="de_DE.UTF-8", TZ="Pacific/Kiritimati")
     return e
 
 
@@ -128,6 +136,331 @@ def text_has_nested_of_constraint(t1):
     t = re.sub(r"\s+", " ", t1)
     return bool(re.search(r"\b(SEQUENCE|SET)( SIZE ?\([^{}]*?\)| \([^{}]*?\))? OF( [a-z][A-Za-z0-9-]*)?( \[[A-Z0-9 ]+\]( IMPLICIT| EXPLICIT)?)? (SEQUENCE|SET) ?(\(|SIZE)", t))
 
+
+
+# ---------------------------------------------------------------------------
+# determinism oracles that vary the process image and make uninitialised reads visible
+
+OPTION_SETS = [
+    ["-pdu=all", "-fcompound-names"],
+    ["-pdu=auto", "-fcompound-names"],
+    ["-pdu=all", "-fcompound-names", "-findirect-choice"],
+    ["-pdu=all", "-fcompound-names", "-no-gen-PER"],
+    ["-pdu=all", "-fcompound-names", "-no-gen-OER"],
+    ["-pdu=auto", "-fcompound-names", "-no-gen-PER", "-no-gen-OER", "-fwide-types"],
+    ["-pdu=all", "-fcompound-names", "-gen-PER", "-gen-OER", "-fwide-types"],
+    ["-pdu=all", "-fcompound-names", "-fincludes-quoted", "-fno-include-deps"],
+    ["-pdu=all", "-fno-constraints"],
+    ["-pdu=all", "-fcompound-names", "-funnamed-unions", "-fline-refs"],
+    ["-pdu=all", "-fcompound-names", "-gen-autotools", "-no-gen-example"],
+    ["-fcompound-names", "-findirect-choice", "-fbless-SIZE"],
+]
+
+VALGRIND = shutil.which("valgrind")
+SETARCH = shutil.which("setarch")
+VG_RC = 77
+
+
+def valgrind_wrap(logfile):
+    """memcheck: every use of an uninitialised value that reaches a conditional jump, an address or a
+    system call (write() of the generated text) and every invalid read/write is an error"""
+    return [VALGRIND, "-q", "--error-exitcode=%d" % VG_RC, "--track-origins=no", "--leak-check=no",
+            "--undef-value-errors=yes", "--log-file=" + logfile]
+
+
+def vg_summary(logfile):
+    try:
+        txt = open(logfile, errors="replace").read()
+    except OSError:
+        return ""
+    txt = re.sub(r"==\d+== ?", "", txt)
+    return txt[:1800]
+
+
+def run_gen(ctx, cwd, files, opts, env=None, outdir="out", wrap=(), dflag=None):
+    """asn1c -S skel <opts> -D <outdir> files… in cwd; returns (rc, tree, stderr)"""
+    asn1c, skel, root = ctx
+    od = os.path.join(cwd, outdir)
+    shutil.rmtree(od, ignore_errors=True)
+    os.makedirs(od)
+    rc, so, se = run_cmd(list(wrap) + [asn1c, "-S", skel] + list(opts) + ["-D", dflag or outdir] + list(files), cwd, env, timeout=300)
+    return rc, (read_tree(od) if rc == 0 else {}), se
+
+
+def write_inputs(d, texts):
+    os.makedirs(os.path.join(d, "in"), exist_ok=True)
+    for name, t in texts.items():
+        with open(os.path.join(d, name), "wb") as f:
+            f.write(t if isinstance(t, bytes) else t.encode("latin1"))
+
+
+def det_runs(ctx, d, texts, files, opts, idx, use_valgrind=True):
+    """the same command in differently shaped processes: plain; environment grown by ~1 KB and by ~7 KB
+    in a deeper working directory; address-space randomisation switched off (setarch -R); under
+    valgrind memcheck.  All output trees must be identical, valgrind must be silent.
+    Returns {"rc0","se0","tree","runs":[(label, rc, differing files)], "first":…, "vg":(rc, log)}"""
+    res = {"runs": []}
+    P0 = os.path.join(d, "r0")
+    write_inputs(P0, texts)
+    rc0, tree0, se0 = run_gen(ctx, P0, files, opts)
+    res.update(rc0=rc0, se0=se0, tree=tree0)
+    variants = [("env+1K", padded_env(1024 + 37 * (idx % 11)), ()),
+                ("env+7K", padded_env(7001 + 517 * (idx % 7)), ())]
+    if SETARCH:
+        variants.append(("no-aslr", None, (SETARCH, os.uname().machine, "-R")))
+    for k, (label, env, wrap) in enumerate(variants):
+        P = os.path.join(d, "r%d" % (k + 1) + "x" * (k * 23))
+        write_inputs(P, texts)
+        rc, tree, se = run_gen(ctx, P, files, opts, env=env, wrap=wrap)
+        if label == "no-aslr" and rc != rc0 and "personality" in se:
+            continue                      # setarch not permitted in this sandbox: not a run of asn1c
+        dd = diff_trees(tree0, tree) if rc == 0 and rc0 == 0 else []
+        res["runs"].append((label, rc, dd))
+        if (dd or rc != rc0) and "first" not in res:
+            k0 = dd[0] if dd else None
+            res["first"] = (label, k0, first_diff(tree0.get(k0, b""), tree.get(k0, b"")) if k0 else "rc %d vs %d" % (rc0, rc))
+    if use_valgrind and VALGRIND:
+        P = os.path.join(d, "rv")
+        write_inputs(P, texts)
+        log = os.path.join(P, "vg.log")
+        rc, tree, se = run_gen(ctx, P, files, opts, wrap=valgrind_wrap(log))
+        res["vg"] = (rc, vg_summary(log) if rc == VG_RC else "")
+        if rc == 0 and rc0 == 0:
+            dd = diff_trees(tree0, tree)
+            res["runs"].append(("valgrind", rc, dd))
+            if dd and "first" not in res:
+                res["first"] = ("valgrind", dd[0], first_diff(tree0.get(dd[0], b""), tree.get(dd[0], b"")))
+        elif rc == 999:
+            res["vg"] = (999, "")         # valgrind too slow for this input under the current load: no verdict
+        elif rc != VG_RC and rc != rc0:
+            res["runs"].append(("valgrind", rc, []))
+            res.setdefault("first", ("valgrind", None, "rc %d vs %d: %s" % (rc0, rc, se[-300:])))
+    return res
+
+
+def report_det(run, rep, r, what):
+    """turns a det_runs result into violations / counters; returns True when quiet"""
+    ok = True
+    bad = [(l, rc, dd) for (l, rc, dd) in r["runs"] if dd or rc != r["rc0"]]
+    if bad:
+        ok = False
+        run.violation("oracle:determinism", dict(rep, what="repeated runs of asn1c on the same input differ (%s)" % what,
+                      runs=[(l, rc, dd[:8]) for (l, rc, dd) in bad], first=r.get("first")))
+    for (l, rc, dd) in r["runs"]:
+        run.count("det_run:" + l)
+    if "vg" in r:
+        run.count("valgrind_runs" if r["vg"][0] != 999 else "valgrind_timeouts")
+        if r["vg"][0] == VG_RC:
+            ok = False
+            run.violation("oracle:uninitialised-read", dict(rep, what="valgrind memcheck reports an error in asn1c (%s)" % what,
+                          valgrind=r["vg"][1]))
+    return ok
+
+
+# ---- permitted-alphabet tables: their content is a function of the alphabet alone
+
+TABLE_RE = re.compile(r"static const int permitted_alphabet_(table|code2value)_(\d+)\[(\d+)\] = \{\n(.*?)\n?\};", re.S)
+
+
+def parse_alphabet_tables(text):
+    """{N: {"table": (declared size, [ints]), "code2value": (declared size, [ints])}}"""
+    out = {}
+    for kind, n, size, body in TABLE_RE.findall(text):
+        vals = []
+        for line in body.split("\n"):
+            line = line.split("\t/*")[0]
+            for tok in line.split(","):
+                tok = tok.strip()
+                if tok:
+                    try:
+                        vals.append(int(tok))
+                    except ValueError:
+                        vals.append(None)
+        out.setdefault(int(n), {})[kind] = (int(size), vals)
+    return out
+
+
+def check_alphabet_tables(text, expected=None):
+    """returns a list of complaints.  Generic: the non-zero slots of a table are 1,2,…,k in index order
+    (the slot of a permitted character holds its rank), slots are within the declared size, and the
+    code2value map lists exactly the permitted codes.  With `expected` (sorted codes, known for
+    generated FROM constraints): the permitted codes are exactly those."""
+    bad = []
+    tabs = parse_alphabet_tables(text)
+    for n, t in sorted(tabs.items()):
+        if "table" not in t:
+            bad.append("code2value_%d without table" % n)
+            continue
+        size, vals = t["table"]
+        if None in vals or len(vals) > size or len(vals) % 16:
+            bad.append("table_%d: %d slots printed for declared size %d" % (n, len(vals), size))
+            continue
+        nz = [(i, v) for i, v in enumerate(vals) if v != 0]
+        if [v for _, v in nz] != list(range(1, len(nz) + 1)):
+            bad.append("table_%d: non-zero slots are not the ranks 1..%d in index order: %s" % (n, len(nz), [v for _, v in nz][:40]))
+            continue
+        codes = [i for i, _ in nz]
+        if codes and len(vals) - codes[-1] > 16:
+            bad.append("table_%d: %d slots printed, highest permitted code %d" % (n, len(vals), codes[-1]))
+        if "code2value" in t:
+            csize, cvals = t["code2value"]
+            if csize != len(codes) or cvals != codes:
+                bad.append("code2value_%d: %s (declared %d) but the table permits %s" % (n, cvals[:40], csize, codes[:40]))
+        if expected is not None and len(tabs) == 1 and codes != list(expected):
+            bad.append("table_%d permits codes %s, the FROM constraint permits %s" % (n, codes[:60], list(expected)[:60]))
+    return bad, len(tabs)
+
+
+def check_tables_in_tree(run, rep, tree, alph=None, cname=lambda t: t):
+    """alphabet-table oracle over every generated .c file of one output tree"""
+    ok = True
+    for k, v in sorted(tree.items()):
+        if not k.endswith(".c") or b"permitted_alphabet_" not in v:
+            continue
+        exp = None
+        if alph:
+            for t, (stype, codes) in alph.items():
+                if k == cname(t) + ".c":
+                    exp = codes
+        bad, n = check_alphabet_tables(v.decode("latin1"), exp)
+        run.count("alphabet_tables_checked", n)
+        if exp is not None:
+            run.count("alphabet_tables_checked_exact")
+        if bad:
+            ok = False
+            run.violation("oracle:alphabet-table", dict(rep, what="a permitted-alphabet table in generated code is not a function of the alphabet "
+                          "(slots beyond the filled part, or ranks/code map inconsistent)", file=k, complaints=bad[:5]))
+    if alph:
+        for t, (stype, codes) in alph.items():
+            if len(G.alphabet_runs(codes)) >= 2 and cname(t) + ".c" in tree:
+                run.count("alphabet_table_expected")
+                if b"permitted_alphabet_table_" not in tree[cname(t) + ".c"]:
+                    run.count("alphabet_table_expected_but_absent")
+    return ok
+
+
+def strip_cmdline(tree):
+    """per-type files with the header line that quotes the command line removed"""
+    out = {}
+    for k, v in tree.items():
+        out[k] = re.sub(rb"\n \* \t`asn1c [^\n]*`\n", b"\n", v, count=1)
+    return out
+
+
+def case_rich(ctx, idx, m, opts, extras):
+    """one rich single module: process-image determinism + valgrind, -P twice, -E/-E -F under valgrind,
+    textual fixpoint; extras: "dforms" (spellings of -D), "dupfile" (same file named twice)"""
+    asn1c, skel, root = ctx
+    d = os.path.join(root, "r%05d" % idx)
+    f = "in/m.asn1"
+    texts = {f: m["text"]}
+    res = {"idx": idx}
+    res["det"] = det_runs(ctx, d, texts, [f], opts, idx)
+    P0 = os.path.join(d, "r0")
+    # -P: the same text through the print-to-stdout path, twice
+    rc1, so1, _ = run_cmd([asn1c, "-S", skel] + opts + ["-P", f], P0)
+    rc2, so2, _ = run_cmd([asn1c, "-S", skel] + opts + ["-P", f], P0, env=padded_env(5000 + idx % 13))
+    res["P"] = (rc1, rc2, so1 == so2, rc1 == res["det"]["rc0"])
+    # printer under valgrind, fixpoint
+    log = os.path.join(d, "vgE.log")
+    wrap = valgrind_wrap(log) if VALGRIND else []
+    rcE, t1, seE = run_cmd(wrap + [asn1c, "-E", f], P0)
+    res["E"] = (rcE, vg_summary(log) if rcE == VG_RC else "", seE)
+    if rcE == 0:
+        rcF, tF1, _ = run_cmd(wrap + [asn1c, "-E", "-F", f], P0)
+        rcF2, tF2, _ = run_cmd([asn1c, "-E", "-F", f], P0, env=padded_env(3000 + idx % 17))
+        res["EF"] = (rcF, vg_summary(log) if rcF == VG_RC else "", rcF2 == rcF and tF1 == tF2)
+        P1 = os.path.join(d, "e1")
+        write_inputs(P1, {f: t1})
+        rc1, t2, se1 = asn1c_E(asn1c, P1, [f])
+        res["fix"] = (rc1, t2 == t1, se1, t1, t2)
+    if "dforms" in extras and res["det"]["rc0"] == 0:
+        base = strip_cmdline(per_type(res["det"]["tree"]))
+        out = []
+        for k, (od, dflag) in enumerate([("out", "out/"), ("out", "./out"), ("out", os.path.join(d, "df2", "out")), ("o u t", "o u t"), ("out/deep/er", "out/deep/er")]):
+            P = os.path.join(d, "df%d" % k)
+            write_inputs(P, texts)
+            rc, tree, se = run_gen(ctx, P, [f], opts, outdir=od, dflag=dflag)
+            dd = diff_trees(base, strip_cmdline(per_type(tree))) if rc == 0 else []
+            out.append((dflag if k != 2 else "<absolute>/out", rc, dd[:5]))
+        res["dforms"] = out
+    if "dupfile" in extras:
+        P = os.path.join(d, "dup")
+        write_inputs(P, texts)
+        rca, ta, sea = run_gen(ctx, P, [f, f], opts)
+        rcb, tb, seb = run_gen(ctx, P, [f, f], opts, env=padded_env(2500), outdir="out2")
+        res["dupfile"] = (rca, rcb, diff_trees(ta, tb))
+    res["tree"] = per_type(res["det"].pop("tree"))
+    shutil.rmtree(d, ignore_errors=True)
+    return res
+
+
+def spec_order_explains(fname, a, b, family):
+    """finding C12-param-spec-order, as narrow as its cause: the file belongs to the parameterised
+    template or to a type that instantiates it, and the two versions differ only in the numbering
+    of the specialisations (`Name_<line>P<k>`), for the template's own file (which holds all of
+    them, in numbering order) up to the order of its lines and the running `_<n>` table suffixes"""
+    if a is None or b is None or fname.rsplit(".", 1)[0] not in family:
+        return False
+    na, nb = re.sub(rb"P\d+", b"P#", a), re.sub(rb"P\d+", b"P#", b)
+    # the running table suffix of an identifier of a specialisation (asn_MBR_Boxed_3P1_5) moves with it
+    na, nb = (re.sub(rb"(\w*P#\w*?)_\d+\b", rb"\1_#", x) for x in (na, nb))
+    if na == nb:
+        return True
+    if fname.rsplit(".", 1)[0] != sorted(family, key=lambda x: x != "Boxed")[0]:
+        return False
+    norm = lambda t: sorted(re.sub(rb"_\d+\b", b"_#", t).split(b"\n"))
+    return norm(na) == norm(nb)
+
+
+def case_clash(ctx, idx, mods, opts, max_perms):
+    """one multi-file set with cross-module name clashes, every permutation of the file list"""
+    asn1c, skel, root = ctx
+    d = os.path.join(root, "k%05d" % idx)
+    names = ["in/f%d.asn1" % i for i in range(len(mods))]
+    texts = {names[i]: m["text"] for i, m in enumerate(mods)}
+    perms = list(itertools.permutations(range(len(mods))))[:max_perms]
+    res = {"idx": idx, "perms": [], "nperms": len(perms)}
+    res["det"] = det_runs(ctx, d, texts, names, opts, idx)
+    base = res["det"]["tree"]
+    res["base_files"] = sorted(per_type(base))
+    pbase = per_type(base)
+    for pi, perm in enumerate(perms):
+        if pi == 0:
+            res["perms"].append((perm, res["det"]["rc0"], sorted(pbase), [], None, res["det"]["se0"][-300:]))
+            continue
+        P = os.path.join(d, "p%d" % pi)
+        write_inputs(P, texts)
+        rc, tree, se = run_gen(ctx, P, [names[i] for i in perm], opts)
+        pt = per_type(tree)
+        dd = diff_trees(pbase, pt) if rc == 0 and res["det"]["rc0"] == 0 else []
+        fd = (dd[0], first_diff(pbase.get(dd[0], b""), pt.get(dd[0], b""))) if dd else None
+        if dd:
+            fam = set(mods[0].get("param_family", []))
+            res.setdefault("spec_order_only", True)
+            res.setdefault("family_only", True)
+            if not (len(fam) >= 3 and all(spec_order_explains(k, pbase.get(k), pt.get(k), fam) for k in dd)):
+                res["spec_order_only"] = False
+            if not (len(fam) >= 3 and all(k.rsplit(".", 1)[0] in fam for k in dd)):
+                res["family_only"] = False
+        res["perms"].append((perm, rc, sorted(pt), dd, fd, se[-300:]))
+    res["tree"] = per_type(res["det"].pop("tree"))
+    shutil.rmtree(d, ignore_errors=True)
+    return res
+
+
+def case_corpus_gen(ctx, idx, path, opts):
+    """code generation from a shipped corpus file: process-image determinism, valgrind, alphabet tables"""
+    asn1c, skel, root = ctx
+    d = os.path.join(root, "g%05d" % idx)
+    f = "in/" + os.path.basename(path)
+    res = {"path": path}
+    src = open(path, "rb").read()
+    # memcheck is 20-50x slower: the largest example (rrc-7.1.0, 700 KB) goes without it
+    res["det"] = det_runs(ctx, d, {f: src}, [f], opts, idx, use_valgrind=len(src) < 100000)
+    res["tree"] = per_type(res["det"].pop("tree"))
+    shutil.rmtree(d, ignore_errors=True)
+    return res
 
 # ---------------------------------------------------------------------------
 # one generated single-module case (runs in a worker thread)
@@ -314,10 +647,10 @@ def multi_modules(rng, size):
 def main(tier):
     run = Run("C12", tier)
     # findings of this property: the assembled known_findings.json, or (worktree not yet merged) the fragment
-    if not run.findings:
-        frag = os.path.join(VERIF, "findings.d", "C12.json")
-        if os.path.exists(frag):
-            run.findings = [f for f in json.load(open(frag)) if f.get("status") == "open"]
+    frag = os.path.join(VERIF, "findings.d", "C12.json")
+    if os.path.exists(frag):
+        have = {f.get("id") for f in run.findings}
+        run.findings = list(run.findings) + [f for f in json.load(open(frag)) if f.get("status") == "open" and f.get("id") not in have]
     rng = Rng(run.seed)
     quick = tier == "quick"
     # 1. proofs ------------------------------------------------------------
@@ -368,6 +701,51 @@ def main(tier):
         m = {"name": "Nof%d" % i, "tagdef": "", "extimpl": False, "assigns": [("Qnest%d" % i, t)]}
         singles.append((m, G.render(m, rng), "witness-nested-of"))
     futs = [pool.submit(case_single, ctx, i, m, t0) for i, (m, t0, kind) in enumerate(singles)]
+    # every other case family is generated and submitted now (fixed order of Rng draws), so that the pool
+    # stays busy while results are evaluated section by section below
+    cn = lambda t: t.replace("-", "_")
+    skel_files = set(os.listdir(skel))
+    nrich = 36 if quick else 320
+    R = G.Rich(rng)
+    rich = []
+    for i in range(nrich):
+        forced = None
+        if i % 3 == 0:     # constraint-table coverage in every run, whatever the seed
+            forced = ["alphabet", "alphabet"] + [rng.choice(G.RICH_BLOCKS) for _ in range(rng.range(0, 3))]
+        m = R.module("Rich%d" % i, pfx="R", blocks=forced)
+        opts = OPTION_SETS[i % len(OPTION_SETS)] if i < 2 * len(OPTION_SETS) else rng.choice(OPTION_SETS)
+        extras = {0: ["dforms"], 4: ["dupfile"]}.get(i % 9, [])
+        rich.append((m, opts, extras))
+    rich_futs = [pool.submit(case_rich, ctx, i, m, opts, extras) for i, (m, opts, extras) in enumerate(rich)]
+    nclash = 14 if quick else 90
+    csets = []
+    for i in range(nclash):
+        mods = G.clash_set(rng)
+        opts = OPTION_SETS[0] if i % 2 == 0 else rng.choice(OPTION_SETS)
+        csets.append((mods, opts))
+    clash_futs = [pool.submit(case_clash, ctx, i, mods, opts, 6) for i, (mods, opts) in enumerate(csets)]
+    nsets = 12 if quick else 80
+    sets = []
+    for i in range(nsets):
+        mods = multi_modules(rng, 2)
+        texts = [G.render(m, rng, imports=imps) for (m, imps) in mods]
+        sets.append((mods, texts))
+    multi_futs = [pool.submit(case_multi, ctx, i, mods, texts, 24) for i, (mods, texts) in enumerate(sets)]
+    files = corpus_files()
+    if quick:
+        files = rng.shuffle(files)[:45]
+    corpus_futs = [pool.submit(case_corpus, ctx, i, p) for i, p in enumerate(files)]
+    allfiles = corpus_files()
+    def has_from(p):
+        try:
+            return bool(re.search(r"\bFROM\s*\(", strip_comments(open(p, "r", errors="replace").read())))
+        except OSError:
+            return False
+    if quick:
+        gfiles = [p for p in allfiles if has_from(p)] + [p for p in files if not has_from(p)][:14]
+    else:
+        gfiles = allfiles
+    cgen_futs = [pool.submit(case_corpus_gen, ctx, i, p, OPTION_SETS[0] if i % 3 else OPTION_SETS[6]) for i, p in enumerate(gfiles)]
     results = [f.result() for f in futs]
 
     # model side (faithfulness) ----------------------------------------------
@@ -462,14 +840,7 @@ def main(tier):
         run.sample({"module": m["name"], "t0": t0[:400], "t1": results[i].get("t1", b"").decode("latin1")[:400]})
 
     # 4. multi-module sets: file-order independence ------------------------------
-    nsets = 12 if quick else 80
-    sets = []
-    for i in range(nsets):
-        mods = multi_modules(rng, 2)
-        texts = [G.render(m, rng, imports=imps) for (m, imps) in mods]
-        sets.append((mods, texts))
-    futs = [pool.submit(case_multi, ctx, i, mods, texts, 24) for i, (mods, texts) in enumerate(sets)]
-    for (mods, texts), f in zip(sets, futs):
+    for (mods, texts), f in zip(sets, multi_futs):
         r = f.result()
         run.case("multi:%s" % "+".join(m["name"] for m, _ in mods))
         run.count("multi_sets_%d_files" % r["nfiles"])
@@ -503,12 +874,164 @@ def main(tier):
             else:
                 run.count("multi_printed_compiles")
 
+
+    # 4b. rich single modules: process-image determinism, valgrind, alphabet tables, options ---------
+    for (m, opts, extras), f in zip(rich, rich_futs):
+        r = f.result()
+        run.case("rich:%s" % m["name"])
+        for b in set(m["blocks"]):
+            run.count("rich_block:" + b)
+        run.count("rich_opts:" + " ".join(opts))
+        rep = {"module": m["name"], "t0": m["text"], "options": opts,
+               "replay_cmd": "asn1c -S skeletons %s -D out m.asn1   (twice, second time with a larger environment; or under valgrind -q)" % " ".join(opts)}
+        det = r["det"]
+        if det["rc0"] != 0:
+            run.count("rich_not_compilable")
+            run.count("rich_not_compilable:" + (re.sub(r"[0-9]+", "N", (det["se0"].strip().split("\n") or ["?"])[-1])[:60]))
+        else:
+            run.count("rich_compiled")
+            run.count("rich_per_type_files", len(r["tree"]))
+        if report_det(run, rep, det, "rich module"):
+            run.count("rich_determinism_ok")
+        check_tables_in_tree(run, rep, r["tree"], m["alph"], cn)
+        rc1, rc2, same, rc_as_gen = r["P"]
+        if rc1 != rc2 or not same:
+            run.violation("oracle:determinism", dict(rep, what="asn1c -P printed different text on a second run", rcs=[rc1, rc2]))
+        rcE, vgE, seE = r["E"]
+        if rcE == VG_RC:
+            run.violation("oracle:uninitialised-read", dict(rep, what="valgrind memcheck reports an error in asn1c -E", valgrind=vgE))
+        elif rcE != 0:
+            run.count("rich_E_rejected")
+            if det["rc0"] == 0:
+                run.violation("oracle:generated-module-rejected", dict(rep, what="asn1c -E rejects a module that asn1c compiles", stderr=seE))
+        if "EF" in r:
+            rcF, vgF, sameF = r["EF"]
+            if rcF == VG_RC:
+                run.violation("oracle:uninitialised-read", dict(rep, what="valgrind memcheck reports an error in asn1c -E -F", valgrind=vgF))
+            elif not sameF:
+                run.violation("oracle:determinism", dict(rep, what="asn1c -E -F printed different text on a second run"))
+        if "fix" in r:
+            rc1, same, se1, t1, t2 = r["fix"]
+            if rc1 == 0 and same:
+                run.count("rich_fixpoint_ok")
+            else:
+                cls = classify_rich_fixpoint(m, t1.decode("latin1"), rc1, se1)
+                if cls:
+                    run.known_finding(cls, m["name"])
+                    run.count("rich_known:" + cls)
+                else:
+                    run.violation("oracle:fixpoint", dict(rep, what="asn1c -E output of a rich module is not accepted or does not print to itself",
+                                  rc=rc1, stderr=se1, t1=t1.decode("latin1")[:3000], first_diff=first_diff(t1, t2) if rc1 == 0 else None))
+        for (dflag, rc, dd) in r.get("dforms", []):
+            run.count("outdir_forms")
+            if rc != det["rc0"] or dd:
+                run.violation("oracle:determinism", dict(rep, what="per-type files (command-line comment removed) depend on the spelling of -D",
+                              dflag=dflag, rc=rc, files=dd))
+        if "dupfile" in r:
+            rca, rcb, dd = r["dupfile"]
+            run.count("dupfile_rc:%d" % rca)
+            if rca != rcb or dd:
+                run.violation("oracle:determinism", dict(rep, what="naming the same file twice: two runs differ", rcs=[rca, rcb], files=dd[:8]))
+    if rich:
+        run.sample({"rich_module": rich[0][0]["text"][:600], "options": rich[0][1]})
+
+    # 4c. cross-module name clashes: naming model vs C, every file order --------------------------
+    name_lines, name_keys = [], []
+    for ci, (mods, opts) in enumerate(csets):
+        for perm in list(itertools.permutations(range(len(mods))))[:6]:
+            toks = [str(len(mods))]
+            for i in perm:
+                toks += [mods[i]["name"], str(len(mods[i]["ids"]))] + [ident for ident, _ in mods[i]["ids"]]
+            name_lines.append("c12_names " + " ".join(toks))
+            name_keys.append((ci, perm))
+    model_names = {}
+    if have_model and name_lines:
+        rcm, mo, me = run_lines(model, name_lines)
+        if rcm != 0 or len(mo) != len(name_lines):
+            run.violation("model:driver", {"what": "model driver failed on c12_names", "stderr": me}, no_input=True)
+        else:
+            model_names = dict(zip(name_keys, mo))
+    for ci, ((mods, opts), f) in enumerate(zip(csets, clash_futs)):
+        r = f.result()
+        run.case("clash:%s" % "+".join(m["name"] for m in mods))
+        run.count("clash_sets_%d_files" % len(mods))
+        rep = {"files": [m["text"] for m in mods], "options": opts,
+               "replay_cmd": "asn1c -S skeletons %s -D out f0.asn1 f1.asn1 …  in every order of the files; compare the per-type files" % " ".join(opts)}
+        det = r["det"]
+        report_det(run, rep, det, "multi-file set with name clashes")
+        if det["rc0"] != 0:
+            run.count("clash_not_compilable")
+            run.count("clash_not_compilable:" + (re.sub(r"[0-9]+", "N", (det["se0"].strip().split("\n") or ["?"])[-1])[:60]))
+        else:
+            run.count("clash_compiled")
+            run.count("clash_permutations", r["nperms"])
+            run.count("clash_per_type_files", len(r["tree"]))
+            check_tables_in_tree(run, rep, r["tree"])
+        order_bad, names_bad = [], []
+        for (perm, rc, pfiles, dd, fd, se) in r["perms"]:
+            if rc != det["rc0"]:
+                order_bad.append((perm, "rc=%d (first order: rc=%d)" % (rc, det["rc0"]), se))
+            elif dd:
+                order_bad.append((perm, dd[:8], fd))
+            mline = model_names.get((ci, perm))
+            if mline is None:
+                continue
+            run.count("naming_cases")
+            flat_ids = [(ident, kind) for i in perm for (ident, kind) in mods[i]["ids"]]
+            if mline == "FATAL":
+                if rc == 0:
+                    names_bad.append((perm, "model: FATAL clash, asn1c: rc=0"))
+                continue
+            mn = mline.split()[1:]
+            if len(mn) != len(flat_ids):
+                names_bad.append((perm, "model output malformed: " + mline[:200]))
+                continue
+            if rc != 0:
+                if "clashes with expression" in se:
+                    names_bad.append((perm, "model: no fatal clash, asn1c: " + se[-200:]))
+                continue
+            want = sorted(cn(n) for n, (ident, kind) in zip(mn, flat_ids)
+                          if kind in ("type", "ptypeused") or (kind == "skeltype" and cn(n) + ".c" not in skel_files))
+            got = sorted(k[:-2] for k in pfiles if k.endswith(".c"))
+            goth = sorted(k[:-2] for k in pfiles if k.endswith(".h"))
+            if want != got or want != goth:
+                names_bad.append((perm, {"model": want, "c": got, "h": goth}))
+            if any("_" in n and n.split("_", 1)[0] in [m["name"] for m in mods] for n in want):
+                run.count("naming_cases_with_prefix")
+        if names_bad:
+            run.count("model_vs_code_diff")
+            run.violation("correspondence:NameClash.cnames_c", dict(rep, what="names of the per-type files: clash-marking model and asn1c disagree",
+                          diffs=[list(map(str, x)) for x in names_bad[:4]]), no_input=not order_bad)
+        rc_bad = any(x[1] != det["rc0"] for x in r["perms"])
+        if order_bad and not rc_bad and r.get("spec_order_only"):
+            run.known_finding("C12-param-spec-order", "+".join(m["name"] for m in mods))
+            run.count("clash_known:C12-param-spec-order")
+        elif order_bad and not rc_bad and r.get("family_only") and mods[0].get("template_module_automatic"):
+            # the template's module has AUTOMATIC TAGS and the template is instantiated from a later file
+            run.known_finding("C12-param-late-spec-unfixed", "+".join(m["name"] for m in mods))
+            run.count("clash_known:C12-param-late-spec-unfixed")
+        elif order_bad:
+            run.violation("oracle:file-order", dict(rep, what="per-type files depend on the order of the input file list (cross-module name clash)",
+                          diffs=[list(map(str, x)) for x in order_bad[:4]]))
+        elif det["rc0"] == 0:
+            run.count("clash_file_order_ok")
+    if csets:
+        run.sample({"clash_set": [m["text"][:300] for m in csets[0][0]]})
+    # the FATAL branch of the model (same identifier twice in one module), replayed on the C
+    dupmod = "Dm DEFINITIONS ::= BEGIN\nTwice ::= INTEGER\nOther ::= BOOLEAN\nTwice ::= NULL\nEND\n"
+    if have_model:
+        rcm, mo, _ = run_lines(model, ["c12_names 1 Dm 3 Twice Other Twice"])
+        dd = os.path.join(root, "dupmod")
+        write_inputs(dd, {"in/m.asn1": dupmod})
+        rcd, _, sed = run_gen(ctx, dd, ["in/m.asn1"], OPTION_SETS[0])
+        run.case("clash:fatal-duplicate")
+        if not (mo == ["FATAL"] and rcd != 0 and "clashes with expression" in sed):
+            run.violation("correspondence:NameClash.cnames_c", {"what": "same identifier twice in one module: model says FATAL, asn1c must refuse",
+                          "t0": dupmod, "model": mo, "rc": rcd, "stderr": sed[-300:]}, no_input=True)
+        shutil.rmtree(dd, ignore_errors=True)
+
     # 5. shipped corpus ------------------------------------------------------
-    files = corpus_files()
-    if quick:
-        files = rng.shuffle(files)[:45]
-    futs = [pool.submit(case_corpus, ctx, i, p) for i, p in enumerate(files)]
-    for p, f in zip(files, futs):
+    for p, f in zip(files, corpus_futs):
         r = f.result()
         rel = os.path.relpath(p, REPO_CORPUS)
         if r["E0"] != 0:
@@ -547,6 +1070,22 @@ def main(tier):
             else:
                 run.count("corpus_semantic_ok")
 
+
+    # 5b. code generation from the shipped corpus: process-image determinism, valgrind, alphabet tables
+    for p, f in zip(gfiles, cgen_futs):
+        r = f.result()
+        rel = os.path.relpath(p, REPO_CORPUS)
+        det = r["det"]
+        if det["rc0"] != 0:
+            run.count("corpus_gen_not_compilable")
+        else:
+            run.count("corpus_gen_compiled")
+            run.case("corpus-gen:" + rel)
+        rep = {"file": rel, "replay_cmd": "asn1c -S skeletons -pdu=all -fcompound-names -D out %s  (twice, larger environment the second time; or under valgrind -q)" % rel}
+        if report_det(run, rep, det, "shipped corpus file"):
+            run.count("corpus_gen_determinism_ok")
+        check_tables_in_tree(run, rep, r["tree"])
+
     # pending correspondence disagreements: did the oracle find a failing input for them?
     bad_oracle = {v.get("module") for v in run.violations if v["kind"].startswith("oracle:")}
     for v in run.violations:
@@ -559,16 +1098,29 @@ def main(tier):
           "extraction: ExtrOcamlBasic only; OCaml 4.13.1; ocaml/drv_c12.ml (AST reader)",
           "checks/c12.py + checks/c12_gen.py: generator, renderer, yacc_norm (the constraint-tree shape yacc builds), file comparison, finding classifiers",
           "asn1c built by vlib.build_asn1c() from the working tree; kernel.randomize_va_space=" + aslr,
-          "determinism / file-order / same-code / corpus fixpoint are observations of the C process on the generated cases, not theorems"]
+          "valgrind " + ("3.19 memcheck (--error-exitcode, leak check off)" if VALGRIND else "NOT AVAILABLE: uninitialised-read oracle skipped") + "; setarch -R " + ("available" if SETARCH else "not available"),
+          "determinism / file-order / same-code / corpus fixpoint / alphabet tables are observations of the C process on the generated cases, not theorems; the naming theorems (NameClash) are tied to the C only through the file names of the generated clash sets"]
     return run.finish("proof", (nthm, ndis), trusted_base=tb,
                       checker_cmd="make -C /verif all && coqc -Q coq A1 coq/Props/Properties_C12.v",
                       extra_cov={"theorems": names,
+                                 "rule2": "also a case: one rich module (text generator, one of 12 option sets), one clash set (2-3 files with cross-module name clashes, every file order), one corpus file compiled to code",
                                  "rule": "a case = one generated module (random AST of the modelled algebra rendered with random layout, comments, UNION/INTERSECTION spellings) or one multi-file module set (all permutations of the file list) or one shipped corpus file",
-                                 "observed_not_proved": ["determinism (3 runs per module, padded environment, ASLR=" + aslr + ")", "file-order independence", "same generated code for t0 and asn1c -E t0", "corpus fixpoint"],
+                                 "observed_not_proved": ["determinism (3 runs per model-algebra module; 5 process shapes incl. valgrind per rich module / clash set / corpus file; ASLR=" + aslr + ")", "valgrind memcheck silent", "permitted-alphabet tables = function of the alphabet", "file-order independence", "same generated code for t0 and asn1c -E t0", "corpus fixpoint"],
                                  "traces_validated_against_impl": run.dist.get("faithfulness_cases", 0)},
                       assumptions=["the yacc grammar is not modelled; the reference parser is tied to asn1c only through -E outputs",
                                    "per-type files = generated files carrying the `From ASN.1 module` header; Makefile.am.libasncodec / pdu_collection.c listing order under file permutation is recorded, not compared",
-                                   "generation runs use -pdu=all -fcompound-names"])
+                                   "model-algebra modules are generated with -pdu=all -fcompound-names; rich modules and clash sets with one of 12 option sets",
+                                   "module OIDs are outside the naming model (generated clash sets have none)",
+                                   "-D spellings: per-type files are compared with the header line quoting the command line removed"])
+
+
+def classify_rich_fixpoint(m, t1, rc1, se1):
+    """rich modules: the recorded findings whose root-cause predicate the module satisfies, else None"""
+    if rc1 != 0 and "Assertion" in se1 and text_has_nested_of_constraint(t1):
+        return "C12-nested-of"
+    if rc1 == 0 and text_has_triple_paren(m["text"]) and text_has_double_paren_after_print(t1):
+        return "C12-paren-collapse"
+    return None
 
 
 def classify_corpus_fixpoint(src, t1, r):
